@@ -107,6 +107,60 @@ def run(ctx: core.Ctx):
         used.append(o)
         if tf and (o["ep"] or o["en"] or o["sc"] == "neg"):
             ctx.nontrivial.add(json.dumps(o, sort_keys=True))
+    # independent trace: larger, very unequal class sizes, inverted / interleaved classes, equal and
+    # unequal easy counts (the bounded model has at most 3 + 2 scored samples)
+    rnd = np.random.RandomState(ctx.seed + 41)
+    nwide = 150 if ctx.tier == "quick" else 1500
+    for k in range(nwide):
+        npos, nneg = [(3, 20), (20, 3), (5, 12), (12, 5), (2, 9), (7, 7)][k % 6]
+        vals = rnd.permutation(40)[: npos + nneg]
+        kind = k % 3
+        if kind == 0:      # perfectly inverted
+            vs = np.sort(vals)
+            pos, neg = vs[:npos], vs[npos:]
+        elif kind == 1:    # mostly inverted with a little overlap
+            vs = np.sort(vals)
+            pos, neg = list(vs[:npos]), list(vs[npos:])
+            if npos > 1 and nneg > 1:
+                pos[-1], neg[0] = neg[0], pos[-1]
+        else:              # random interleaving
+            pos, neg = vals[:npos], vals[npos:]
+        ep, en = [(1, 1), (2, 2), (5, 5), (0, 0), (3, 1), (0, 4)][(k // 6) % 6]
+        sc = ["pos", "neg"][(k // 3) % 2]
+        if sc == "neg" and kind != 2:
+            pos, neg = neg, pos             # keep the classifier bad in both score directions
+        o = {"pos": sorted(int(x) for x in pos), "neg": sorted(int(x) for x in neg), "ep": ep, "en": en,
+             "sc": sc, "ec": ["pos", "neg"][(k // 2) % 2]}
+        if len(o["pos"]) == 0 or len(o["neg"]) == 0:
+            continue
+        g = base[(k + ctx.seed) % 2]
+        events += events_for_case(o, len(used), g, AFF[(k + ctx.seed) % len(AFF)], ids, relations=True)
+        used.append(o)
+        ctx.nontrivial.add(json.dumps(o, sort_keys=True))
+    # very large, well separated data (EER of a few samples in several hundred thousand)
+    from score_analysis import Scores
+    for k in range(2 if ctx.tier == "quick" else 8):
+        n = [30000, 200000, 400000][k % 3]
+        ov = 2 + k
+        sc = ["pos", "neg"][k % 2]
+        hi = np.arange(n, dtype=float) + (n - ov) + 0.5          # the class on the accepted side
+        lo = np.arange(n, dtype=float)
+        pos, neg = (hi, lo) if sc == "pos" else (lo, hi)
+        ep, en = [(0, 0), (3, 1)][k % 2]
+        e = {"id": next(ids), "cid": len(used), "op": "eer_counts", "exc": "", "conc": "large", "npos": n, "nneg": n,
+             "ep": ep, "en": en, "e": [0, 0], "e_is_zero": False, "fp": 0, "fn": 0}
+        try:
+            s_ = Scores(pos, neg, nb_easy_pos=ep, nb_easy_neg=en, score_class=sc, equal_class=["pos", "neg"][(k // 2) % 2])
+            t, ee = s_.eer()
+            fr = Fraction(float(ee)).limit_denominator(2 * (n + 5))
+            e["e"] = [fr.numerator % 2000000000, fr.denominator] if abs(float(fr) - float(ee)) < 1e-9 else [0, 0]
+            e["e_is_zero"] = bool(ee == 0.0)
+            m = s_.cm(t).matrix
+            e["fp"], e["fn"] = int(m[1, 0]), int(m[0, 1])
+        except Exception as ex:  # noqa
+            e["exc"] = sd.exc_str(ex)
+        events.append(e)
+        used.append({"kind": "large", "n": n, "overlap": ov, "sc": sc})
     ctx.sample(events[1])
     ctx.judge("Trace_C06", events, cases=used, batch=2500)
     ctx.rule = ("objects of the bounded model with both classes non-empty: every tie-free one (with "
